@@ -86,7 +86,7 @@ def m_scale(f, palm=False):
 
 
 # reference sessions in which connection 0 is a witness: nothing another connection does may change its stream
-WITNESS_REFS = ("shared", "auth", "big", "filetransfer", "truncated", "scaled", "listen")
+WITNESS_REFS = ("shared", "auth", "big", "filetransfer", "truncated", "scaled", "listen", "nonblock", "inetd")
 
 
 # ---------------------------------------------------------------- transport sessions (oracle only)
@@ -157,11 +157,7 @@ def transport_sessions():
     # rfbSetNonBlocking fails on the new descriptor (direct, listening socket, proxy)
     T["nonblock_accept"] = [tcfg(0), "accept a"] + handshake(0) + ["setflfail 1", "accept a", "pe", "in 0 " + hx(m_fur(0, w, h)), "pe", "shutdown", "end"]
     T["nonblock_listen"] = [tcfg(0), "setflfail 0", "laccept a " + hx(ver), "pe", "pe", "accept a", "shutdown", "end"]
-    # the process was started by inetd: screen->inetdSock becomes the one client
-    T["inetd_peerclose"] = [tcfg(0), "inetd a " + hx(ver), "pe"] + rfb_tail(0) + ["peerclose 0", "pe", "pe", "shutdown", "end"]
-    T["inetd_open_at_shutdown"] = [tcfg(0), "inetd a " + hx(ver), "pe"] + rfb_tail(0) + ["shutdown", "end"]
-    T["inetd_refused"] = [tcfg(0), "inetd r " + hx(ver), "pe", "pe", "shutdown", "end"]
-    T["inetd_appclose"] = [tcfg(0), "inetd a " + hx(ver), "pe", "appclose 0", "pe", "shutdown", "end"]
+    # (the inetd route and the rfbSetNonBlocking failure are modelled now: reference sessions inetd*, nonblock)
     return T
 
 
@@ -260,6 +256,23 @@ def ref_sessions():
         "laccept r", "laccept a", "in 0 " + hx(m_fur(1, w, h)), "mark", "pe", "pe"] + handshake(6) + [
         "in 6 " + hx(m_scale(2)), "pe", "laccept r", "bell", "pe", "peerclose 6", "pe", "laccept a", "shutdown", "laccept a", "pe", "cleanup", "end"]
     R["listen"] = L
+    # 9. rfbSetNonBlocking fails on the new descriptor: direct rfbNewClient, first and second call site on the
+    #    listening-socket path; next to a witness and a scaled client; descriptor numbers are re-used by later accepts
+    L = [cfg(w, h), "accept a"] + handshake(0) + ["in 0 " + hx(m_fur(0, w, h)), "pe", "accept n", "accept a"] + handshake(2) + [
+        "in 2 " + hx(m_scale(2)), "pe", "laccept n", "pe", "laccept m " + hx(m_version(8)), "laccept a", "pe", "pe"] + handshake(5) + [
+        "accept m closed", "mark", "in 0 " + hx(m_fur(1, w, h)), "pe", "peerclose 2", "pe", "laccept n", "shutdown", "pe", "cleanup", "end"]
+    R["nonblock"] = L
+    # 10. started by inetd: the one descriptor handed over at the first rfbCheckFds (its bytes served in the same
+    #     call), further clients through rfbNewClient, peer close / shutdown with it open; 11.-13. refused by the hook,
+    #     rfbSetNonBlocking failing at the hand-over, shut down before the hand-over
+    L = [cfg(w, h), "inetd a " + hx(m_version(8)), "pe", "in 0 " + hx([1]), "pe", "in 0 " + hx([1]), "pe",
+         "in 0 " + hx(m_fur(0, w, h)), "pe", "laccept a", "pe", "accept a"] + handshake(1) + [
+         "mark", "in 0 " + hx(m_fur(1, w, h)), "pe", "peerclose 1", "pe", "shutdown", "pe", "cleanup", "end"]
+    R["inetd"] = L
+    R["inetd_peerclose"] = [cfg(w, h), "inetd a", "pe"] + handshake(0) + ["in 0 " + hx(m_fur(0, w, h)), "pe", "peerclose 0", "pe", "pe", "shutdown", "end"]
+    R["inetd_refused"] = [cfg(w, h), "inetd r " + hx(m_version(8)), "pe", "pe", "accept a", "shutdown", "end"]
+    R["inetd_nonblock"] = [cfg(w, h), "inetd n " + hx(m_version(8)), "pe", "accept a", "pe", "shutdown", "end"]
+    R["inetd_never_handed_over"] = [cfg(w, h), "inetd a " + hx(m_version(8)), "mark", "shutdown", "pe", "cleanup", "end"]
     return R
 
 
@@ -311,7 +324,7 @@ def rand_case(rng, idx, malformed=False):
             pre = ""
             if malformed and rng.random() < 0.3:
                 pre = " " + rng.choice(["closed", hx(b"RFB 003.008\n"), hx(b"XXXXYY"), hx(b"RFB "), hx(b"\x01\x02\x03\x04")])
-            L.append("%s %s%s" % ("laccept" if rng.random() < 0.3 else "accept", rng.choice("aaaahr"), pre))
+            L.append("%s %s%s" % ("laccept" if rng.random() < 0.3 else "accept", rng.choice("aaaaaaaahhrrnm"), pre))
             if L[-1].startswith("laccept"):
                 L.append("pe")
             stage[nconn] = 0; minor[nconn] = rng.choice([8, 8, 8, 7, 3, 889, 5, 9])
@@ -402,6 +415,11 @@ def directed_cases(start):
     add("scaled-shared-copy", [cfg(), "accept a"] + hs(0) + ["accept a"] + hs(1) + ["accept a"] + hs(2) + [
         "in 0 " + hx(m_scale(2)), "in 1 " + hx(m_scale(2)), "in 2 " + hx(m_scale(4)), "pe", "appclose 1", "pe", "in 0 " + hx(m_scale(4)), "pe", "cleanup"])
     add("listen-refuse", [cfg(), "laccept r", "pe", "laccept r", "laccept a", "pe", "pe"])
+    add("nonblock-direct", [cfg(), "accept n", "accept a", "accept m", "pe", "appclose 1", "pe"])
+    add("nonblock-listen", [cfg(), "laccept n", "laccept m", "laccept a", "pe", "pe", "pe", "shutdown"])
+    add("inetd-hold", [cfg(), "inetd h", "pe", "start 0"] + hs(0) + ["appclose 0", "pe", "shutdown"])
+    add("inetd-closed-peer", [cfg(), "inetd a closed", "pe", "pe", "shutdown"])
+    add("inetd-late", [cfg(), "accept a", "inetd a", "pe"])
     add("listen-versionfail", [cfg(), "fault 1 r", "laccept a", "pe", "laccept a closed", "pe"])
     add("maxfd", [cfg(), "accept a", "accept a", "accept a", "appclose 2", "appclose 0", "appclose 1", "pe"])
     add("ptr-owner-gone", [cfg(), "accept a"] + hs(0) + ["accept a"] + hs(1) + ["in 0 " + hx(m_ptr(1, 1, 1)), "pe",
@@ -742,7 +760,7 @@ def gen_cases(ctx, mexe, cexe=None):
         for fn in sorted(os.listdir(cdir)):
             lines = [l for l in open(os.path.join(cdir, fn)).read().split("\n") if l.strip() and not l.startswith("#")]
             if lines and not lines[0].startswith("case "):
-                tr = any(l.split()[0] in ("haccept", "setflfail", "inetd") for l in lines) or len(lines[0].split()) > 9
+                tr = any(l.split()[0] in ("haccept", "setflfail") for l in lines) or len(lines[0].split()) > 9
                 lines = ["case 0 %s:%s" % ("tcorpus" if tr else "corpus", fn)] + lines
             add(lines)
     for c in directed_cases(0):
@@ -852,7 +870,7 @@ def check(ctx):
         "application-driven event loop only (backgroundLoop == FALSE); the threaded loop is C13",
         "kernel socket layer modelled as per-connection byte queue + peer-open flag + fault table; socket buffers never fill (writes complete in one call)",
         "heap objects outside the model's resource multiset are covered by LeakSanitizer only (sampled)",
-        "WebSocket/TLS connections, SetPixelFormat, SetScale, extensions are outside the modelled fragment",
+        "WebSocket/TLS connections, the httpd proxy hand-over, SetPixelFormat, extensions are outside the modelled fragment (the first two are judged by the specification oracle only); reverse connections and UDP are not exercised",
     ]
     if unmod * 50 > len(cases):     # a few random byte streams desynchronise into SetPixelFormat etc.: skipped, counted
         ctx.violation("generator produced %d cases outside the modelled fragment (internal error of the check)" % unmod,
